@@ -12,6 +12,8 @@ COMPONENT = "threads"
 P_DIFF_CONCRETE = False
 HARNESS = dict(name="threads", flavour="asan", extra_srcs=[detsched.SRC], ldflags=detsched.LDFLAGS)
 TIMEOUT = 600
+_HANG_FILE = os.path.join(cbuild.CACHE, f"c20-hangs-{os.getpid()}")   # harness watchdog: hangs on record (see threads.c)
+C_ENV = {"C20_HANG_FILE": _HANG_FILE}
 TRUSTED = ["hand model lean/AwsVerif/Model/Threads.lean (tied by this correspondence run only)",
            "harness/detsched.c: simulated pthread mutex/condvar/create/join semantics, serialised execution, virtual time",
            "lean/Driver/Threads.lean: re-implementation of detsched's pick rule (enabled set, choice list, fair default policy, time jumps)"]
@@ -72,9 +74,13 @@ def gen_timed_cleanup(rng):
     still asleep; the library is initialised again, the sleeper is then joined by an untimed join-all.  Every managed
     thread is either a sleeper or cannot block, so nothing hands itself over between the clean-up's last list swap
     and the re-initialisation (that window loses the parked thread on /repo: see DESIGN observations)."""
-    to = rng.choice([120, 600, 3000])
+    to = rng.choice([120, 600, 3000, 5 * 10 ** 9])   # the last one does not fit 32 bits and really expires
     n = rng.randint(1, 4)
     sleepers = {1} | {k for k in range(2, n + 1) if rng.random() < 0.3}
+    if to > 10 ** 6:
+        # a single sleeper would leave main polling the clock (50 ns per read) for the whole sleep
+        n = max(n, 2)
+        sleepers |= {2}
     ops, launches = [], []
     for k in range(1, n + 1):
         acts = [f"A{c}" for c in rng.sample(range(1, 10), rng.choice([0, 1, 2]))]
@@ -86,7 +92,7 @@ def gen_timed_cleanup(rng):
         launches.append(f"L{k}" + ("n" if rng.random() < 0.3 else ""))
     main = launches + ["C"] * rng.choice([0, 1])
     main.insert(rng.randint(0, len(main)), f"T{to}")
-    main += ["X", "T0"] + ["C"] * rng.choice([0, 1]) + ["W"] + ["C"] * rng.choice([0, 1])
+    main += [rng.choice("XXW"), "T0"] + ["C"] * rng.choice([0, 1]) + ["W"] + ["C"] * rng.choice([0, 1])
     ops.append("main " + " ".join(main))
     ops.append("tick 50")
     if rng.random() < 0.3:
@@ -274,6 +280,8 @@ SMALL = [
     ("timeout-max-legal", ["slot 1 M Y", "slot 2 M", f"main L1 L2 T{U64 - 1 - 1000} W C", "clock 1000"], (2, 70, 300), (3, 90, 5000)),
     ("timeout-c000-ticks", ["slot 1 M S400", "slot 2 M", f"main T{0xC000000000000000} L1 L2 W C", "tick 50", "clock 1"], (1, 100, 300), (2, 120, 4000)),
     # the clean-up's internal join-all times out while a managed thread sleeps; the library is initialised again
+    ("timeout-above-2^32-expires", ["slot 1 M S20000000000", "slot 2 M S20000000000 A1", "main T5000000000 L1 L2 W T0 W C", "tick 50"],
+     (1, 110, 300), (2, 130, 4000)),
     ("cleanup-timeout", ["slot 1 M S20000 A1", "slot 2 M", "main L1 L2 T600 X T0 W C", "tick 50"], (1, 110, 300), (2, 130, 4000)),
     ("create-window-3", ["slot 1 M L2n", "slot 2 M L3", "slot 3 M", "main L1n W"], (1, 100, 400), (2, 120, 8000)),
 ]
@@ -301,6 +309,9 @@ def explore_cases(tier):
 
 
 def gen_cases(rng, tier):
+    os.makedirs(cbuild.CACHE, exist_ok=True)
+    if os.path.exists(_HANG_FILE):
+        os.remove(_HANG_FILE)
     n = 3000 if tier == "quick" else 250000
     return explore_cases(tier) + [gen_case(rng) for _ in range(n)]
 
@@ -324,6 +335,10 @@ def oracle(case, lines):
     P = [l for l in lines if l.startswith("P ")]
     if any(l == "bad-op" for l in lines):
         return ["harness rejected the op file (bad-op)"]
+    if any(l.startswith("P MONITOR not run") for l in lines):
+        return []
+    if any(l.startswith("P MONITOR wall-clock") for l in lines):
+        return ["the case hung outside any schedule point (wall-clock watchdog)"]
     if not P:
         return []
     prog = parse_program(case)
@@ -583,6 +598,10 @@ def distribution(cases, c_out):
 
 
 def extra_stages(ctx):
+    try:
+        os.remove(_HANG_FILE)
+    except OSError:
+        pass
     """the scheduler's own self-test (determinism, replay, deadlock detection, wrap of archive members)"""
     try:
         ok, out = detsched.selftest("asan")
